@@ -495,8 +495,8 @@ func c16FinalizerConfig(h map[string]any, path string) map[string]any {
 	return conf
 }
 
-// c16Create: a panic inside the factory (empty key store, unsupported key size: C19) counts as a rejected
-// configuration
+// c16Create: should the factory panic (it did for an empty key store or an unsupported key size before these became
+// errors) this counts as a rejected configuration
 func c16Create(cc *c16Creation, id string, conf map[string]any) (fin finalizers.Finalizer, err error) {
 	defer func() {
 		if r := recover(); r != nil {
@@ -1129,7 +1129,7 @@ func (w *c16World) reload(op map[string]any, async bool, wg *sync.WaitGroup) (st
 
 	for _, l := range w.rec.get(h.path) {
 		fire := func() {
-			defer func() { _ = recover() }() // a panicking reload leaves the state as it was (C19 covers the panic)
+			defer func() { _ = recover() }() // a reload that panicked would leave the state as it was, like a failed one
 
 			l.OnChanged(zerolog.Nop())
 		}
